@@ -12,7 +12,7 @@ checks, nal = [], []
 for p in props:
     if p in claimed:
         c = claimed[p]
-        assert any(u["property"] == p for u in units), f"{p} claimed without units"
+        assert any(u["property"] == p or p in u.get("also", []) for u in units), f"{p} claimed without units"
         checks.append({
             "property_id": p,
             "quick_cmd": f"./check {p} --tier quick",
